@@ -427,7 +427,10 @@ class Gen:
                 m = 1 + r.below(2)
                 ps = [self.fresh("p") for _ in range(m)]
                 # lambdas of this fragment are stateless; they capture (and may assign) enclosing variables
-                lctx = dict(ctx, vars=ctx["vars"] + [(q, F, False) for q in ps], allow_state=False, self_type=None, in_lambda=True)
+                # known finding G3 (VM reads a stale value after a closure assigned a captured variable): captured
+                # variables are read-only inside closures unless the profile asks for `closure_assign`
+                cap = ctx["vars"] if self.p.get("closure_assign", False) else [(n, t, False) for (n, t, _) in ctx["vars"]]
+                lctx = dict(ctx, vars=cap + [(q, F, False) for q in ps], allow_state=False, self_type=None, in_lambda=True)
                 body = self.block(F, d - 1, lctx)
                 fname = self.fresh("f")
                 stmts.append(("let", fname, Node("lam", ps, body)))
@@ -516,6 +519,7 @@ PROFILES = {
     # scalar programs with state: the fragment on which VM, WASM and the reference semantics agree on the pinned tree
     "scalar": dict(avoid_f2=True, avoid_f3=True, lambdas=False, tuples=False),
     "scalar_deep": dict(avoid_f2=True, avoid_f3=True, lambdas=False, tuples=False, depth=5, max_fns=5),
+    "closure_assign": dict(avoid_f2=True, avoid_f3=True, closure_assign=True),
     "nolam": dict(avoid_f2=True, avoid_f3=True, lambdas=False),
     "notup": dict(avoid_f2=True, avoid_f3=True, tuples=False),
     "stateless": dict(avoid_f2=True, avoid_f3=True, stateful_pct=0, self=False),
